@@ -245,10 +245,12 @@ func (r *Result) MustOK() error {
 }
 
 var reRejected = regexp.MustCompile(`TRACE-REJECTED-AT-LINE", (\d+)`)
+var reBadLine = regexp.MustCompile(`TRACE-BAD-LINE", (\d+)`)
 
-// ValidateTrace runs a trace specification over trace.ndjson (lines). It returns 0 when the whole
-// trace was accepted, else the 1-based number of the first line that no action of the specification explains.
-func ValidateTrace(module, cfg string, lines [][]byte, extraFiles map[string][]byte) (int, *Result, error) {
+// ValidateTrace runs a trace specification over trace.ndjson (lines). Trace specifications consume
+// a line that no action explains with a TraceBad step that prints its number; ValidateTrace returns
+// those 1-based line numbers. A trace that stops being consumed altogether is an error.
+func ValidateTrace(module, cfg string, lines [][]byte, extraFiles map[string][]byte) ([]int, *Result, error) {
 	var buf bytes.Buffer
 	for _, l := range lines {
 		buf.Write(l)
@@ -258,23 +260,27 @@ func ValidateTrace(module, cfg string, lines [][]byte, extraFiles map[string][]b
 	for k, v := range extraFiles {
 		files[k] = v
 	}
-	res, err := Run(Opts{Module: module, Cfg: cfg, Workers: 1, Files: files, Timeout: 20 * time.Minute,
+	res, err := Run(Opts{Module: module, Cfg: cfg, Workers: 1, Files: files, Timeout: 30 * time.Minute,
 		JavaOpts: []string{"-Dtlc2.tool.queue.IStateQueue=StateDeque"}})
 	if err != nil {
-		return 0, res, err
+		return nil, res, err
+	}
+	var bad []int
+	for _, m := range reBadLine.FindAllStringSubmatch(res.Raw, -1) {
+		n, _ := strconv.Atoi(m[1])
+		bad = append(bad, n)
 	}
 	if m := reRejected.FindStringSubmatch(res.Raw); m != nil {
-		n, _ := strconv.Atoi(m[1])
-		return n, res, nil
+		return bad, res, fmt.Errorf("trace not consumed beyond line %s of %d (module %s): malformed trace or trace spec", m[1], len(lines), module)
 	}
-	if res.ErrorText != "" && !strings.Contains(res.ErrorText, "TraceAccepted") {
-		return 0, res, fmt.Errorf("TLC error during trace validation: %s", res.ErrorText)
+	if res.ErrorText != "" {
+		return bad, res, fmt.Errorf("TLC error during trace validation: %s", res.ErrorText)
 	}
 	if !res.Finished {
-		return 0, res, fmt.Errorf("TLC did not finish trace validation\n%s", lastLines(res.Raw, 20))
+		return bad, res, fmt.Errorf("TLC did not finish trace validation\n%s", lastLines(res.Raw, 20))
 	}
-	if res.Generated != int64(len(lines))+1 && res.Distinct != int64(len(lines))+1 {
-		return 0, res, fmt.Errorf("trace validation explored %d states for %d lines", res.Generated, len(lines))
+	if res.Distinct != int64(len(lines))+1 {
+		return bad, res, fmt.Errorf("trace validation explored %d states for %d lines", res.Distinct, len(lines))
 	}
-	return 0, res, nil
+	return bad, res, nil
 }
